@@ -428,3 +428,122 @@ Proof.
     destruct (q0 =? 0)%nat eqn:E; rewrite ?get_ladd, ?get_lsub; try lia.
     apply Nat.eqb_eq in E. subst q0. lia.
 Qed.
+
+Lemma NN0_trans : forall s s', WF s -> NN0 s -> trans s s' -> NN0 s'.
+Proof.
+  intros s s' (L1 & L2 & B & G) N T.
+  destruct T; intros k; specialize (N k); auto;
+    try (pose proof (blk_lt _ _ _ H) as Hi; destruct (B _ _ H) as (W1 & W2 & W3)).
+  - unfold pool in *. simpl. rewrite app_nth1 by lia. auto.
+  - unfold chpool. rewrite pool_setpool by side. autorewrite with bp.
+    destruct (0 =? bpar b)%nat eqn:E; auto. apply Nat.eqb_eq in E.
+    rewrite get_ladd, get_lneg. rewrite <- E in *.
+    destruct (Nat.lt_ge_cases k (nkeys s)).
+    + rewrite lge_spec in H1. specialize (H1 k H2). lia.
+    + rewrite (get_beyond (bdeb b)) by lia. lia.
+  - unfold chpool. rewrite pool_chins, pool_setpool by side. autorewrite with bp. auto.
+  - unfold chpool. rewrite pool_chins, pool_setpool by side. autorewrite with bp. auto.
+  - unfold chpool. rewrite pool_setpool by side. autorewrite with bp.
+    destruct (0 =? bpar b)%nat eqn:E; auto. apply Nat.eqb_eq in E. rewrite <- E in *.
+    rewrite get_ladd. specialize (W3 k). lia.
+  - rewrite H in G. inversion G as [|g r' Hg Hr]; subst. simpl in Hg.
+    unfold chpool. rewrite pool_chins, pool_setpool by side. autorewrite with bp. auto.
+  - rewrite H in G. inversion G as [|g r' Hg Hr]; subst. simpl in Hg. destruct Hg as [Hq Hd].
+    unfold chpool. rewrite pool_setpool by side. autorewrite with bp.
+    destruct (0 =? q)%nat eqn:E; auto. apply Nat.eqb_eq in E. subst q.
+    rewrite get_ladd. specialize (Hd k). lia.
+  - unfold chpool. rewrite pool_chins, pool_setpool by side. autorewrite with bp.
+    simpl. rewrite get_ladd. auto.
+  - rewrite pool_chins, pool_setpool by side. simpl. auto.
+Qed.
+
+(* ---------------- claims never wait; no missed wake-up *)
+Definition CLM (s : state) : Prop :=
+  forall i b, blk s i = Some b -> bclaim b = true -> bph b <> WaitAvail.
+Definition WAKE (s : state) : Prop :=
+  forall i b, blk s i = Some b -> bph b = WaitAvail -> bwok b = false ->
+  lge (nkeys s) (pool (bpar b) s) (bdeb b) = false.
+
+(* generic: how a block of s' arises from a block of s *)
+Lemma blk_after_setpool_setph : forall s i p q v j b',
+  blk (setpool q v (setph i p s)) j = Some b' ->
+  exists b, blk s j = Some b /\
+    b' = mark (nkeys s) q v (if (j =? i)%nat then set_ph p b else b).
+Proof.
+  intros. rewrite blk_setpool, blk_setph in H.
+  destruct (j =? i)%nat; destruct (blk s j) as [b|]; simpl in H; inversion H; eauto.
+Qed.
+
+Lemma CLM_trans : forall s s', CLM s -> trans s s' -> CLM s'.
+Proof.
+  intros s s' C T.
+  assert (P1 : forall i p, (forall b, blk s i = Some b -> bclaim b = true -> p <> WaitAvail) ->
+               CLM (setph i p s)).
+  { intros i p Hp j b' Hb Hc. rewrite blk_setph in Hb. destruct (j =? i)%nat eqn:E.
+    - apply Nat.eqb_eq in E. subst j. destruct (blk s i) as [b|] eqn:F; inversion Hb; subst.
+      simpl in *. eapply Hp; eauto.
+    - eapply C; eauto. }
+  assert (P2 : forall s0 q v, CLM s0 -> CLM (setpool q v s0)).
+  { intros s0 q v C0 j b' Hb Hc. rewrite blk_setpool in Hb.
+    destruct (blk s0 j) as [b|] eqn:F; inversion Hb; subst.
+    rewrite bclaim_mark in Hc. rewrite bph_mark. eapply C0; eauto. }
+  assert (P3 : forall s0 q d, CLM s0 -> CLM (chins q d s0)) by (intros; auto).
+  destruct T; auto; unfold chpool;
+    try (repeat first [apply P3 | apply P2]; try apply P1; try (intros; discriminate); auto; fail).
+  - intros j b' Hb Hc. unfold blk in Hb. simpl in Hb. rewrite nth_error_snoc in Hb.
+    destruct (j <? length (blocks s))%nat; [eapply C; eauto|].
+    destruct (j =? length (blocks s))%nat; inversion Hb; subst. simpl. discriminate.
+  - apply P1. intros b0 Hb0 Hc. rewrite H in Hb0. inversion Hb0; subst b0.
+    inversion H0; subst; try discriminate.
+    destruct H2 as [F | F]; [congruence|]. exfalso. eapply C; eauto.
+Qed.
+
+Lemma WAKE_setpool : forall s0 q v, WAKE s0 -> (q < length (pools s0))%nat -> WAKE (setpool q v s0).
+Proof.
+  intros s0 q v W Hq j b' Hb Hp Hw. rewrite blk_setpool in Hb.
+  destruct (blk s0 j) as [b|] eqn:F; inversion Hb; subst. clear Hb.
+  rewrite bph_mark in Hp. rewrite bpar_mark, bdeb_mark. rewrite pool_setpool by auto.
+  change (nkeys (setpool q v s0)) with (nkeys s0).
+  unfold mark in Hw. rewrite Hp in Hw. simpl in Hw.
+  destruct (bpar b =? q)%nat eqn:E; simpl in Hw.
+  - destruct (lge (nkeys s0) v (bdeb b)) eqn:L; simpl in Hw; [discriminate | auto].
+  - eapply W; eauto.
+Qed.
+
+Lemma WAKE_setph : forall s i p b, WAKE s -> blk s i = Some b ->
+  (p = WaitAvail -> lge (nkeys s) (pool (bpar b) s) (bdeb b) = false) -> WAKE (setph i p s).
+Proof.
+  intros s i p b W Hb Hl j b' Hb' Hp Hw. rewrite blk_setph in Hb'.
+  destruct (j =? i)%nat eqn:E.
+  - apply Nat.eqb_eq in E. subst j. rewrite Hb in Hb'. inversion Hb'; subst b'. simpl in *.
+    apply Hl; auto.
+  - eapply W; eauto.
+Qed.
+
+Lemma WAKE_trans : forall s s', WF s -> WAKE s -> trans s s' -> WAKE s'.
+Proof.
+  intros s s' (L1 & L2 & B & G) W T.
+  assert (P3 : forall s0 q d, WAKE s0 -> WAKE (chins q d s0)) by (intros s0 q d H; exact H).
+  assert (P4 : forall s0 g, WAKE s0 -> WAKE (push g s0)) by (intros s0 g H; exact H).
+  assert (P5 : forall s0, WAKE s0 -> WAKE (pop s0)) by (intros s0 H; exact H).
+  destruct T; auto; unfold chpool;
+    try (pose proof (blk_lt _ _ _ H) as Hi; destruct (B _ _ H) as (W1 & W2 & W3)).
+  - (* new *)
+    intros j b' Hb Hp Hw. unfold blk in Hb. simpl in Hb. rewrite nth_error_snoc in Hb.
+    destruct (j <? length (blocks s))%nat eqn:E.
+    + destruct (B j b' Hb) as (X1 & _). apply Nat.ltb_lt in E.
+      unfold pool. simpl. rewrite app_nth1 by lia. eapply W; eauto.
+    + destruct (j =? length (blocks s))%nat; inversion Hb; subst. discriminate.
+  - eapply WAKE_setph; eauto. intros ->. inversion H0; auto.
+  - apply WAKE_setpool; [|side]. eapply WAKE_setph; eauto. discriminate.
+  - apply P3. apply WAKE_setpool; [|side]. eapply WAKE_setph; eauto. discriminate.
+  - apply P3. apply WAKE_setpool; [|side]. eapply WAKE_setph; eauto. discriminate.
+  - apply WAKE_setpool; [|side]. eapply WAKE_setph; eauto. discriminate.
+  - apply P4. eapply WAKE_setph; eauto. discriminate.
+  - rewrite H in G. inversion G as [|g r' Hg Hr]; subst. simpl in Hg.
+    apply P3. apply WAKE_setpool; [|side]. apply P5. auto.
+  - rewrite H in G. inversion G as [|g r' Hg Hr]; subst. simpl in Hg. destruct Hg.
+    apply WAKE_setpool; [|side]. apply P5. auto.
+  - apply P3. apply WAKE_setpool; [|side]. auto.
+  - apply P3. apply WAKE_setpool; [|side]. auto.
+Qed.
